@@ -48,7 +48,7 @@ pub fn plan(property: &str) -> Option<Plan> {
         "C08" => Plan { property: "C08", level: "exploration", parts: vec![(Clean, 22000, 400000), (Crash, 8000, 200000), (Foreign, 8000, 200000)], rule: rule_hist, assumptions: common_assume },
         "C09" => Plan { property: "C09", level: "exploration", parts: vec![(Corrupt, 60000, 2000000)], rule: "one case = an image from a live run, damaged by 1-3 raw-sector or stream-layer faults, then open + read sweep + mutate sweep + flush; non-trivial = the corruption was applied and open was attempted; distinct = different fingerprint", assumptions: common_assume },
         "C10" => Plan { property: "C10", level: "exploration", parts: vec![(Summary, 30000, 600000)], rule: rule_hist, assumptions: common_assume },
-        "C11" => Plan { property: "C11", level: "exploration", parts: vec![(Streams, 30000, 600000)], rule: rule_hist, assumptions: common_assume },
+        "C11" => Plan { property: "C11", level: "exploration", parts: vec![(Streams, 24000, 500000), (Handles, 8000, 200000)], rule: rule_hist, assumptions: common_assume },
         "C16" => Plan { property: "C16", level: "exploration", parts: vec![(Clean, 15000, 300000), (Foreign, 10000, 200000), (Streams, 5000, 100000)], rule: rule_hist, assumptions: common_assume },
         _ => return None,
     })
@@ -75,6 +75,7 @@ pub struct Agg {
     pub samples: Vec<String>,
     pub other_property: BTreeMap<String, u64>,
     pub twin_runs: u64,
+    pub known_hits: u64,
 }
 
 impl Agg {
@@ -170,6 +171,7 @@ pub struct BatchOutcome {
 }
 
 pub fn run_batch(property: &str, profile: Profile, seed: u64, runs: u64, threads: usize, stop_after: usize) -> BatchOutcome {
+    let known = load_known();
     let next = AtomicU64::new(0);
     let stop = AtomicBool::new(false);
     let agg = Mutex::new(Agg::default());
@@ -204,8 +206,16 @@ pub fn run_batch(property: &str, profile: Profile, seed: u64, runs: u64, threads
                     for v in res.violations.iter() {
                         if matches_property(v, property) {
                             let mut f = found.lock().unwrap();
+                            if known.matches(v).is_some() {
+                                // a listed finding: note it once, keep exploring
+                                local.known_hits += 1;
+                                if !f.iter().any(|x| x.violation.signature() == v.signature()) {
+                                    f.push(Found { trace: trace.clone(), violation: v.clone() });
+                                }
+                                break;
+                            }
                             f.push(Found { trace: trace.clone(), violation: v.clone() });
-                            if f.len() >= stop_after {
+                            if f.iter().filter(|x| known.matches(&x.violation).is_none()).count() >= stop_after {
                                 stop.store(true, Ordering::Relaxed);
                             }
                             break;
@@ -238,6 +248,7 @@ pub fn merge(a: &mut Agg, b: Agg) {
     a.restarts += b.restarts;
     a.tainted_runs += b.tainted_runs;
     a.twin_runs += b.twin_runs;
+    a.known_hits += b.known_hits;
     a.disk.add(&b.disk);
     for (k, v) in b.probes {
         *a.probes.entry(k).or_insert(0) += v;
@@ -563,6 +574,7 @@ pub fn write_evidence_with_distinct(r: &CheckReport, distinct: u64) {
         "event_log_digest": format!("{:016x}", a.digest),
         "violations_of_other_properties_seen": a.other_property,
         "known_findings_hit": r.known_hits,
+        "runs_that_reproduced_a_known_finding": a.known_hits,
         "components": {
             "real": ["msi (all of it, debug assertions and overflow checks on)", "cfb 0.10.0", "encoding_rs", "uuid", "byteorder"],
             "stub": ["storage medium: SimDisk instead of fs::File/Cursor", "foreign writer: independent encoder instead of Windows Installer tooling", "clock: never consulted"]
@@ -642,8 +654,16 @@ pub fn check(property: &str, tier: &str) -> i32 {
         per_profile.push((profile.name().to_string(), out.agg.runs));
         merge(&mut total, out.agg);
         for f in out.found.iter() {
+            if let Some(k) = known.matches(&f.violation) {
+                let line = format!("KNOWN-FINDING: property={} {} [{}]", property, k.2, k.1);
+                if !known_hits.contains(&line) {
+                    println!("{}", line);
+                    known_hits.push(line);
+                }
+                continue;
+            }
             let (mt, mv, _) = minimise(f, 600);
-            if let Some(k) = known.matches(&mv).or_else(|| known.matches(&f.violation)) {
+            if let Some(k) = known.matches(&mv) {
                 let line = format!("KNOWN-FINDING: property={} {} [{}]", property, k.2, k.1);
                 if !known_hits.contains(&line) {
                     println!("{}", line);
